@@ -212,7 +212,7 @@ def rec_cases(tr, tier, maxrecs=None):
         if r.violated:
             viol.append(r)
         lines += r.lines
-    return parse_hist_cases(lines, limit=(1200 if quick else 40000)), viol
+    return parse_hist_cases(lines, limit=(1200 if quick else 8000)), viol
 
 
 def check_C17(tier, replay=None):
